@@ -197,6 +197,25 @@ def zero_frame(g):
     return fr
 
 
+def decoy_call(g, kw):
+    """
+    Second half of the deterministic history: one fixed injection with the SAME keyword arguments (integration flags and
+    sub-sample counts) into a frame of the same shape but OTHER resolutions (dt x 1.75, df x 1.5).  A memo shared between
+    frames and keyed on the sub-sample counts or the shape alone (seeded change C01-34: class-level table of sub-sample
+    time offsets keyed by t_subsamples only) is then filled by a frame with a different dt in every process, before the
+    call under test, so the wrong result it causes reproduces when the case is re-executed alone.  Nothing is compared here.
+    """
+    g2 = dict(g, dt=g['dt'] * 1.75, df=g['df'] * 1.5)
+    try:
+        d = zero_frame(g2)
+        kw2 = {k: v for k, v in kw.items() if k != 'bounding_f_range'}
+        d.add_signal(lambda t: float(d.fs[len(d.fs) // 2]) + 0.3 * d.df / d.dt * (np.asarray(t) - float(d.ts[0])),
+                     lambda t: 1.0 + 0.0 * np.asarray(t), _ones_profile, lambda f: 1.0 + 0.0 * np.asarray(f), **kw2)
+        d.data[:] = 0.0
+    except Exception:
+        pass
+
+
 def _ones_profile(f, f_center):
     return np.ones(np.shape(f)) + 0.0 * np.asarray(f_center)
 
@@ -382,6 +401,7 @@ def case_signal(case):
         # unit-carrying arguments (MHz / kHz / mHz-per-second / ms Quantities) for the shipped families
         ps, tsp, fsp = dict(ps, units=True), dict(tsp, units=True), dict(fsp, units=True)
     kw = call_kwargs(case, bound)
+    decoy_call(g, kw)
 
     # ---- reference (independent of the call below) ---------------------------------------------
     try:
